@@ -182,9 +182,17 @@ Definition mMod (z x y : mint) : res mint :=
   else let n := Z.max (mbits x) (mbits y) in
        Ok (mkM n (idiv_r n n (inval x mod 2^n) (inval y mod 2^n))).
 (* n is a Go uint: shifts by >= 64 give 0 (<<) resp. 0 / -1 (>> on int64) *)
+(* big path of Lsh: "z.values.Lsh(..); for i := z.values.BitLen()-1; i >= z.bits; i-- {
+   z.values.SetBit(z.values, i, 0) }": bits w .. BitLen-1 of the two's complement are
+   cleared (BitLen = that of the absolute value, taken once).  For v >= 0 this is
+   v mod 2^w (FoldClassProof.lsh_clear_nonneg); a NEGATIVE v (the operand is a folded
+   64-bit constant with bit 63 set: small, i64 < 0, big() negative) stays negative. *)
+Definition lsh_clear (w v : Z) : Z :=
+  let bl := bitlen_abs v in
+  if bl <=? w then v else v - (v mod 2^bl - v mod 2^w).
 Definition mLsh (z x : mint) (n : Z) : res mint :=
   if isSmall z then setSmall (mbits z) (if 64 <=? n then 0 else wrap_s64 (small x * 2^n))
-  else Ok (mkM (mbits z) ((big x * 2^n) mod 2^(mbits z))).
+  else Ok (mkM (mbits z) (lsh_clear (mbits z) (big x * 2^n))).
 Definition mRsh (z x : mint) (n : Z) : res mint :=
   if isSmall z then setSmall (mbits z) (Z.shiftr (small x) n)
   else Ok (mkM (mbits x) (Z.shiftr (big x) n)).
@@ -397,10 +405,18 @@ Definition evalNot (v : value) : res value :=
   | VD KBool w x => Ok (VD KBool w (1 - x))
   | VD _ _ _ => Err E_UNARY
   end.
+(* Call.SSA -> Call.cast for a run-time value (ssagen.go): "smov" when source and
+   target are both TInt and the target is wider (circuitgen.go Mov/Smov: the
+   missing high wires are the source's top wire), else "mov" (the low n wires,
+   missing high wires are the zero wire). *)
 Definition evalCast (k : kind) (n : Z) (v : value) : res value :=
   match v with
   | VC c => do c' <- cast k n c; Ok (VC c')
-  | VD _ _ _ => Err E_CAST          (* run-time casts are not generated by the harness *)
+  | VD k0 w x =>
+      if intlike k0 && intlike k then
+        Ok (VD k n (if kind_eqb k0 KInt && kind_eqb k KInt && (w <? n)
+                    then (sgn_at w x) mod 2^n else x mod 2^n))
+      else Err E_CAST
   end.
 
 (* ---------- expressions of the generated programs ---------- *)
